@@ -708,6 +708,21 @@ pub fn run(ctx: &Ctx, rep: &mut Report) {
     vf_pure::backoff::sections(ctx, rep);
     ctx.max_shrink_iters.store(12, std::sync::atomic::Ordering::Relaxed);
     ctx.prop(rep, "client", ctx.tier.pick(64, 1_200), 8, client_case, check);
+    // a parked stream request that fails again on each new connection: every one of these connections WAS established, so the back-off
+    // restarts each time and a retry limit is never reached; the pending local connection is served by the first healthy server
+    ctx.enumerate(
+        rep,
+        "parked-request-fails-again",
+        ctx.tier.pick(2, 6),
+        2,
+        |i| {
+            let k = 3 + (i % 3) as usize;
+            let mut script = vec![Attempt::HandshakeThenSilent; k];
+            script.push(Attempt::Healthy);
+            ClientCase { script, max_retry_count: 2 + (i / 3) as u32, max_retry_interval: 3200, local_after_attempt: Some(0), local_delay_ms: 20, udp_burst: 0, tcp_reset: false, tls: i % 2 == 1, handshake_timeout_ms: 0 }
+        },
+        check,
+    );
     // many consecutive timeouts with few descriptors to spare (runs alone: the limit is process-wide while it lasts)
     ctx.enumerate(rep, "many-handshake-timeouts", 1, 1, |_| 150u32, check_many_stalls);
     // directed: three failures (200, 400, 800 ms), a served connection that is then lost, and the delay before the next
